@@ -21,6 +21,7 @@ class MCfg:
         self.attackers = 0.5
         self.extras = 0.1
         self.link_density = 1.0
+        self.large = False        # the large stratum: 12-40 assets, fields with up to 12 members, long names, huge ids
         for k, v in kw.items():
             if not hasattr(self, k):
                 raise TypeError(k)
@@ -38,6 +39,8 @@ def gen_amodel(rng, lang: Lang, cfg: MCfg | None = None) -> AModel:
     m = AModel('model%d' % rng.randrange(1000))
     conc = lang.concrete()
     n = rng.randint(0, cfg.max_assets) if rng.random() < 0.9 else rng.randint(0, 2)
+    if cfg.large:
+        n = rng.randint(12, 40)
     explicit = rng.random() < cfg.explicit_ids
     used_ids, used_names = set(), set()
     nid = 0
@@ -45,6 +48,8 @@ def gen_amodel(rng, lang: Lang, cfg: MCfg | None = None) -> AModel:
         t = rng.choice(conc)
         if explicit:
             pool = list(range(0, 30)) + ([-1, -5, -2] if cfg.zero_neg_ids else [])
+            if cfg.large:
+                pool += [100, 255, 256, 1000, 65536, 2 ** 31 - 1, 2 ** 31, 2 ** 31 + 7, 2 ** 63 - 1, 10 ** 12, -2 ** 31] + list(range(30, 80))
             aid = rng.choice([x for x in pool if x not in used_ids])
         else:
             aid = nid
@@ -55,6 +60,8 @@ def gen_amodel(rng, lang: Lang, cfg: MCfg | None = None) -> AModel:
             base = rng.choice(HOSTILE)
         else:
             base = rng.choice(PLAIN)
+        if cfg.large and rng.random() < 0.15:
+            base = rng.choice(['n' * 300, ' padded ', 'A' * 64 + ':' + 'b' * 64, '0123456789' * 13, 'ﬁle', 'e\u0301'])
         name = base
         k = 0
         while name in used_names:
@@ -65,13 +72,15 @@ def gen_amodel(rng, lang: Lang, cfg: MCfg | None = None) -> AModel:
         for d, dflt in lang.defenses(t).items():
             if rng.random() < 0.4:
                 defs[d] = rng.choice(DEF_VALUES)
+                if cfg.large and rng.random() < 0.3:
+                    defs[d] = rng.choice([1e-9, 0.999999999, 5e-324, 0.1 + 0.2, 1.0 - 1e-16, 0.30000000000000004])
         a = {'id': aid, 'name': name, 'type': t, 'defenses': defs, 'extras': {}}
         if rng.random() < cfg.extras:
             a['extras'] = rng.choice([{'position': {'x': 1, 'y': 2.5}}, {'note': 'n'}, {'k': [1, 2]}])
         m.assets.append(a)
     _gen_links(rng, lang, m, cfg)
     if m.assets and rng.random() < cfg.attackers:
-        for j in range(rng.randint(1, 3)):
+        for j in range(rng.randint(1, 3) if not cfg.large else rng.randint(1, 12)):
             eps = []
             for a in rng.sample(m.assets, min(len(m.assets), rng.randint(0, 3))):
                 steps = list(lang.steps(a['type']).keys())
@@ -101,11 +110,12 @@ def _gen_links(rng, lang, m, cfg):
         R = _members(lang, m, a['rightAsset'])
         if not L or not R:
             continue
-        lmax = a['leftMultiplicity']['max'] or 4
-        rmax = a['rightMultiplicity']['max'] or 4
+        lmax = a['leftMultiplicity']['max'] or (14 if cfg.large else 4)
+        rmax = a['rightMultiplicity']['max'] or (14 if cfg.large else 4)
         r = rng.random()
-        nl = 1 if r < 0.6 else rng.randint(1, min(lmax, len(L), 3))
-        nr = 1 if rng.random() < 0.5 else rng.randint(1, min(rmax, len(R), 3))
+        cap = 12 if cfg.large else 3
+        nl = 1 if r < 0.6 else rng.randint(1, min(lmax, len(L), cap))
+        nr = 1 if rng.random() < 0.5 else rng.randint(1, min(rmax, len(R), cap))
         left = rng.sample(L, nl)
         right = rng.sample(R, nr)
         if rng.random() < cfg.self_links:
